@@ -28,8 +28,8 @@ TOLERANCES = {
 }
 ASSUMPTIONS = ["loop model of vf.oracles.gridmodel (numbering convention of C07)"]
 FLOORS = {
-    "quick": {"grid_rejudged_after_operators": 300, "divergence_matrix": 500, "face_to_cell_model": 1500, "cell_to_face_model": 3000, "tangential_constant": 300},
-    "thorough": {"grid_rejudged_after_operators": 3000, "divergence_matrix": 5000, "face_to_cell_model": 15000, "cell_to_face_model": 30000, "tangential_constant": 3000},
+    "quick": {"scalar_voxel_size": 100, "grid_rejudged_after_operators": 300, "divergence_matrix": 500, "face_to_cell_model": 1500, "cell_to_face_model": 3000, "tangential_constant": 300},
+    "thorough": {"scalar_voxel_size": 1000, "grid_rejudged_after_operators": 3000, "divergence_matrix": 5000, "face_to_cell_model": 15000, "cell_to_face_model": 30000, "tangential_constant": 3000},
 }
 
 
@@ -67,12 +67,17 @@ def run_shard(spec, R):
             if not R.want([list(shape), draw]):
                 continue
             h = [float(10 ** rng.uniform(-2, 2)) for _ in shape]
+            scalar_h = (si + draw) % 3 == 2
+            if scalar_h:
+                h = [h[0]] * dim  # one number for all axes, given as a plain float
             # the caller's container (list or float ndarray) is reused and overwritten by the caller afterwards:
             # a grid is defined by the values it was constructed with
-            given = list(h) if (si + draw) % 2 == 0 else np.array(h, dtype=float)
+            given = h[0] if scalar_h else (list(h) if (si + draw) % 2 == 0 else np.array(h, dtype=float))
             grid = darsia.Grid(shape, given)
-            for d in range(dim):
+            for d in range(dim if not scalar_h else 0):
                 given[d] = given[d] * 0.5
+            if scalar_h:
+                R.count("scalar_voxel_size")
             R.count("caller_container_overwritten_after_construction")
             M = GridModel(shape, h)
             case = {"shape": list(shape), "draw": draw, "voxel_size": h}
